@@ -1,4 +1,4 @@
-(* C06, rtpav1 — statements only *)
+(* C06, rtpav1 — statements only (code with fix commit aec245d) *)
 From GVL Require Import NList Rtp.
 From GV_av1 Require Import Model Proofs.
 Open Scope N_scope.
